@@ -460,18 +460,28 @@ fn derive_func_op_shape(def: &FuncOpDef, symbol_table: &mut BTreeMap<Rc<str>, Sh
         FuncOpDef::Map(MapFilterOpDef { func, target, pos }) => {
             let target_shape = target.derive_shape(symbol_table);
             let func_shape = func.derive_shape(symbol_table);
-            // target must be a list
+            // target must be a list, a tuple or a string
             match &target_shape {
                 Shape::List(_) | Shape::Hole(_) => {}
                 Shape::Narrowed(NarrowedShape {
                     types: NarrowingShape::Any,
                     ..
                 }) => {}
+                // Mapping over a string yields a string.
+                Shape::Str(_) => return Shape::Str(pos.clone()),
+                // Mapping over a tuple yields a tuple whose fields the
+                // function decides, so nothing is known about them here.
+                Shape::Tuple(_) => {
+                    return Shape::Narrowed(NarrowedShape {
+                        pos: pos.clone(),
+                        types: NarrowingShape::Any,
+                    })
+                }
                 _ => {
                     return Shape::TypeErr(
                         pos.clone(),
                         format!(
-                            "map target must be a list, got {}",
+                            "map target must be a list, tuple or string, got {}",
                             target_shape.type_name()
                         ),
                     );
@@ -492,9 +502,17 @@ fn derive_func_op_shape(def: &FuncOpDef, symbol_table: &mut BTreeMap<Rc<str>, Sh
         FuncOpDef::Filter(MapFilterOpDef { func, target, pos }) => {
             let target_shape = target.derive_shape(symbol_table);
             let _func_shape = func.derive_shape(symbol_table);
-            // target must be a list, return type is same list type
+            // target must be a list, tuple or string
             match &target_shape {
                 Shape::List(_) => target_shape,
+                // Filtering a string yields a string.
+                Shape::Str(_) => Shape::Str(pos.clone()),
+                // Filtering a tuple keeps some of its fields; which ones is
+                // only known at runtime.
+                Shape::Tuple(_) => Shape::Narrowed(NarrowedShape {
+                    pos: pos.clone(),
+                    types: NarrowingShape::Any,
+                }),
                 Shape::Hole(_) => Shape::List(NarrowedShape {
                     pos: pos.clone(),
                     types: NarrowingShape::Any,
@@ -509,7 +527,7 @@ fn derive_func_op_shape(def: &FuncOpDef, symbol_table: &mut BTreeMap<Rc<str>, Sh
                 _ => Shape::TypeErr(
                     pos.clone(),
                     format!(
-                        "filter target must be a list, got {}",
+                        "filter target must be a list, tuple or string, got {}",
                         target_shape.type_name()
                     ),
                 ),
@@ -524,9 +542,9 @@ fn derive_func_op_shape(def: &FuncOpDef, symbol_table: &mut BTreeMap<Rc<str>, Sh
             let target_shape = target.derive_shape(symbol_table);
             let acc_shape = acc.derive_shape(symbol_table);
             let func_shape = func.derive_shape(symbol_table);
-            // target must be a list
+            // target must be a list, a tuple or a string
             match &target_shape {
-                Shape::List(_) | Shape::Hole(_) => {}
+                Shape::List(_) | Shape::Hole(_) | Shape::Tuple(_) | Shape::Str(_) => {}
                 Shape::Narrowed(NarrowedShape {
                     types: NarrowingShape::Any,
                     ..
@@ -535,7 +553,7 @@ fn derive_func_op_shape(def: &FuncOpDef, symbol_table: &mut BTreeMap<Rc<str>, Sh
                     return Shape::TypeErr(
                         pos.clone(),
                         format!(
-                            "reduce target must be a list, got {}",
+                            "reduce target must be a list, tuple or string, got {}",
                             target_shape.type_name()
                         ),
                     );
